@@ -651,6 +651,9 @@ ORDER_SPECS = [
 ]
 
 
+_INTS = ("i128", "u128", "i64", "u64", "i32", "u32", "isize", "usize", "i16", "u16", "i8", "u8")
+
+
 def c_order(F, res, rule="C-ORDER", specs=ORDER_SPECS):
     from .. import ordering
     for path, uses_get, spec, all_pass, text in specs:
@@ -660,6 +663,22 @@ def c_order(F, res, rule="C-ORDER", specs=ORDER_SPECS):
             res.add([assumption(rule, key, "crates/tx3-tir/src/model/assets.rs", "%s not found under this name: its decision table is not decided" % path.split("::")[-1])])
             continue
         w = where(f)
+        # the order is component-wise: no amount of one class is ever added to an amount of another.  `sum()` / `product()`
+        # over the amounts (in the predicate, a helper of the module or a closure) is an unchecked aggregate across classes -
+        # it overflows on values whose every entry is in range, and whatever is decided from it is not decided per entry
+        fi = mir.inline_calls(F, f, want=_asset_helpers, depth=3)
+        agg = []
+        for g in with_closures(F, fi):
+            for bi, t in mir.calls(g):
+                c = t.get("callee") or ""
+                if c in ("std::iter::Iterator::sum", "std::iter::Iterator::product") and any(a in _INTS for a in (t.get("gargs") or [])):
+                    agg.append((g, t["line"], c.split("::")[-1]))
+        key_a = "%s|no aggregate across classes" % path
+        if agg:
+            g, l_, nm = agg[0]
+            res.add([finding(rule, key_a, where(g, l_), "%s decides from `%s()` over the amounts of all classes: an unchecked aggregate across classes (overflow on two entries that are each in range) stands where the property states an entry-by-entry comparison" % (path.split("::")[-1], nm))])
+        else:
+            res.add([ok(rule, key_a, w, "no sum() / product() over amounts in the predicate, its helpers or closures")])
         try:
             ep = ordering.predicate(F, f)
             lits, rows = ep.table(uses_get=uses_get)
